@@ -5,7 +5,7 @@
 EXTENDS StyleProp, Json, IOUtils
 Trace == ndJsonDeserialize(IOEnv.TRACE)
 VARIABLE l
-Look(d) == [cue |-> d.cue, run |-> d.run, voice |-> d.voice]
+Look(d) == [cue |-> d.cue, run |-> d.run, voice |-> d.voice, meta |-> d.meta]
 Reason(ev) ==
   IF ev.res # "ok" THEN <<"C07", "conversion-" \o ev.res>>
   ELSE IF ev.cues # 1 THEN <<"C07", "cue-count">>
